@@ -172,6 +172,18 @@ def oracle_type(t):
     raise ValueError(t)
 
 
+def ret_pairs(items):
+    """(kind, index, ok struct, err struct|None): Result<Sa, Sb> and Option<Sa> returns exercised for the receive-buffer leg"""
+    plain = [s_ for s_ in items if not s_["out"] and not s_["lifetimes"]]
+    out = []
+    for i, sa in enumerate(plain[:3]):
+        sb = plain[(i + 1) % len(plain)]
+        out.append(("res", i, sa["name"], sb["name"]))
+        out.append(("optret", i, sa["name"], None))
+        out.append(("resunit", i, None, sb["name"]))       # Result<(), Sb>
+    return out
+
+
 def oracle_source(items):
     src = "#![allow(warnings)]\nuse core::mem::{size_of, align_of, offset_of};\n"
     for en, vs in ENUMS.items():
@@ -193,6 +205,9 @@ def oracle_source(items):
             src += '    println!("off %s %s {}", offset_of!(%s, %s));\n' % (s["name"], f[0], s["name"], f[0])
     for o in sorted(opts):
         src += '    println!("opt {} {} {} {}", "%s".replace(" ", ""), offset_of!(diplomat_runtime::DiplomatOption<%s>, is_ok), size_of::<diplomat_runtime::DiplomatOption<%s>>(), align_of::<diplomat_runtime::DiplomatOption<%s>>());\n' % (o, o, o, o)
+    for kind, i, a, b_ in ret_pairs(items):
+        ty = "diplomat_runtime::DiplomatResult<%s, %s>" % (a or "()", b_) if kind in ("res", "resunit") else "diplomat_runtime::DiplomatOption<%s>" % a
+        src += '    println!("ret %s %d {} {} {}", offset_of!(%s, is_ok), size_of::<%s>(), align_of::<%s>());\n' % (kind, i, ty, ty, ty)
     src += "}\n"
     return src
 
@@ -205,7 +220,7 @@ def run_oracle(art, work, items):
     if not ok:
         raise build.Inconclusive("layout oracle does not compile: " + err[-800:])
     p = subprocess.run([exe], stdout=subprocess.PIPE, text=True)
-    lay = {"size": {}, "off": {}, "opt": {}}
+    lay = {"size": {}, "off": {}, "opt": {}, "ret": {}}
     for line in p.stdout.split("\n"):
         w = line.split()
         if not w:
@@ -216,6 +231,8 @@ def run_oracle(art, work, items):
             lay["off"][(w[1], w[2])] = int(w[3])
         elif w[0] == "opt":
             lay["opt"][w[1]] = (int(w[2]), int(w[3]), int(w[4]))
+        elif w[0] == "ret":
+            lay["ret"][(w[1], int(w[2]))] = (int(w[3]), int(w[4]), int(w[5]))
     return lay
 
 
@@ -512,6 +529,10 @@ def build_program(b):
             ms.append({"name": "dv_take_opt", "attrs": [], "lifetimes": [], "self": None, "params": [["v", ["opt", ["struct", s["name"], [None] * len(lts)], "std"], []]], "ret": None})
         s2["impls"] = [{"attrs": [], "methods": ms}]
         items.append(s2)
+    for kind, i, a, b_ in ret_pairs(b["items"]):
+        ret = (["result", ["struct", a, []], ["struct", b_, []], "std"] if kind == "res" else
+               ["result", ["unit"], ["struct", b_, []], "std"] if kind == "resunit" else ["opt", ["struct", a, []], "std"])
+        op["impls"][0]["methods"].append({"name": "dv_%s_%d" % (kind, i), "attrs": [], "lifetimes": [], "self": None, "params": [], "ret": ret})
     prog = {"modules": [{"name": "ffi", "attrs": [], "uses": [], "items": items}], "extra_top": [], "config_attrs": []}
     ir.default_order(prog["modules"][0])
     return prog
@@ -594,6 +615,14 @@ def check_batch(art, work, b):
                 if kind == "slice":
                     offs[off] = slice_payload(payload[0], payload[1])[0]
         se["sliceLeaves"] = [{"off": o, "esize": e} for o, e in sorted(offs.items())]
+    spec["returns"] = []
+    for kind, i, a, b_ in ret_pairs(items):
+        flag_off, total, ualign = lay["ret"][(kind, i)]
+        sa = lay["size"][a][0] if a else 0
+        sb = lay["size"][b_][0] if b_ else 0
+        spec["returns"].append({"kind": kind, "index": i, "method": "dv%s%d" % ({"res": "Res", "resunit": "Resunit", "optret": "Optret"}[kind], i), "sym": "Op_dv_%s_%d" % (kind, i),
+                                "flagOff": flag_off, "total": total, "align": ualign, "maxPayload": max(sa, sb),
+                                "okBytesHex": plan[a][0][2].hex() if a else "", "errBytesHex": plan[b_][0][2].hex() if b_ else ""})
     sp = os.path.join(work, "spec.json")
     json.dump(spec, open(sp, "w"))
     rc, so, se_ = compilers.node_run(os.path.join(compilers.NODE_DIR, "struct-layout.mjs"), [r.outdir, sp])
@@ -705,6 +734,26 @@ def check_batch(art, work, b):
                 results.append((s, -1, False, "return-abi", "a returned %s (an aggregate holding a single scalar) is a direct scalar return in the wasm C ABI, but the binding passes a receive-buffer argument %s" % (name, R["makeArgs"]), nt))
             else:
                 results.append((s, -1, True, "ok", "", nt))
+    # (g) receive buffers of Result<Sa, Sb> / Option<Sa> returns: size, alignment and the position of the is_ok byte
+    by_name = {s_["name"]: s_ for s_ in items}
+    for rs, rr in zip(spec["returns"], res.get("__returns", [])):
+        kind, i, a, b_ = next(x for x in ret_pairs(items) if x[0] == rs["kind"] and x[1] == rs["index"])
+        s_ = by_name[a or b_]
+        nt = nontrivial(lay, items, s_)
+        what = ("Result<%s, %s>" % (a or "()", b_)) if kind in ("res", "resunit") else ("Option<%s>" % a)
+        msg = None
+        if (a and any(k_ == "slice" for _, _, k_, _ in plan[a][0][1])) or (b_ and any(k_ == "slice" for _, _, k_, _ in plan[b_][0][1])):
+            results.append((s_, -2, True, "ok", "", False))      # slices need pointees: not part of this leg
+            continue
+        if "error" in rr:
+            msg = "calling a method returning %s failed in the harness: %s" % (what, rr["error"])
+        elif not any(al[0] >= rs["total"] and al[1] % rs["align"] == 0 for al in rr["allocs"]):
+            msg = "receive buffer for a returned %s: allocations %s, Rust writes %d bytes aligned to %d (is_ok at offset %d)" % (what, rr["allocs"][:3], rs["total"], rs["align"], rs["flagOff"])
+        elif rr["okRun"] != ("object" if a else "null"):
+            msg = "a returned %s with is_ok = 1 at offset %d came back as %s" % (what, rs["flagOff"], rr["okRun"])
+        elif rr["errRun"] != ("threw-with-cause" if kind in ("res", "resunit") else "null"):
+            msg = "a returned %s with is_ok = 0 at offset %d (padding bytes inside the union set to 1) came back as %s" % (what, rs["flagOff"], rr["errRun"])
+        results.append((s_, -2, msg is None, "ok" if msg is None else "return-buffer", msg or "", nt))
     return results, None, src
 
 
